@@ -111,6 +111,7 @@ def main(argv):
     c.add_argument('--tier', default=None)
     r = sub.add_parser('replay')
     r.add_argument('path')
+    sub.add_parser('selftest')
     e = sub.add_parser('engine')
     e.add_argument('name')
     e.add_argument('--tier', default=None)
@@ -121,6 +122,9 @@ def main(argv):
             return check(args.prop, tier, config.seed())
         if args.cmd == 'replay':
             return replay(args.path)
+        if args.cmd == 'selftest':
+            from . import selftest
+            return selftest.main()
         if args.cmd == 'engine':
             res = run_engine(args.name, args.tier or config.tier(), config.seed())
             print(json.dumps({k: v for k, v in res.items() if k not in ('fails', 'samples')}, indent=1))
